@@ -56,6 +56,7 @@ type interpreter struct {
 	mutexes     map[*value]*mutexModel
 	wgs         map[*value]*wgModel
 	pools       map[*value]*poolModel
+	syncMaps    map[*value]*omap
 	ctxs        []*ctxModel
 	ro          []roRegion
 	counters    map[string]int
